@@ -308,6 +308,14 @@ def molecule_dephasing_monitor(chk, tier):
                     kprop = mol.get_KTHierarchyPropagator(depth=depth)
                 ham = kprop.hy.ham
                 w = [ham.data[i, i].real - ham.rwa_energies[i] for i in range(nl)]
+                # the hypotheses of c16_uncoupled_populations_constant / c16_uncoupled_sites_decouple_elementwise on the real objects:
+                # Hamiltonian and system parts of the bath couplings are diagonal
+                offd = max([float(numpy.max(numpy.abs(ham.data - numpy.diag(numpy.diag(ham.data)))))] +
+                           [float(numpy.max(numpy.abs(V - numpy.diag(numpy.diag(V))))) for V in kprop.hy.Vs])
+                chk.count("uncoupled_hypothesis:%s" % ("diagonal" if offd == 0.0 else "not_diagonal"))
+                if offd != 0.0:
+                    chk.violation("dephasing:molecule_not_diagonal", "Hamiltonian / system operators of a molecule's hierarchy are not diagonal "
+                                  "(largest off-diagonal element %.3g): the uncoupled-site theorems do not apply" % offd, "monitor", c)
                 rhoi = qr.ReducedDensityMatrix(data=rho0.copy())
                 dat = kprop.propagate(rhoi).data
                 worst, where = 0.0, None
